@@ -179,6 +179,10 @@ def finish(prop, a, results, units, world, t0, seed, run_harness, extra=None):
         "trusted_base": trusted,
         "functions_under_contract": funcs,
         "backend_queries": backend, "solver_time_s": round(solver_s, 2), "solver_time_max_obligation_s": round(max_s, 2),
+        "solver_time_max_single_query_s": round(max([o.get("max_query_s", 0.0) for o in obligations] or [0.0]), 2),
+        "solver_timeout_per_query_s": 30,
+        "slowest_obligations": sorted([{"obligation": o["name"], "max_single_query_s": o.get("max_query_s", 0.0), "backend": o.get("backend")}
+                                       for o in obligations if o.get("max_query_s", 0.0) >= 2.0], key=lambda x: -x["max_single_query_s"])[:8],
         "bounded": bounded,
         "known_findings": [l for l in known_lines],
         "obligations_under_open_known_findings": n_known,
